@@ -320,7 +320,7 @@ def relax_cases(draw):
     return {'a': a, 'h0': h0, 'k': k, 'c': c, 'rot': rot, 't': t, 'n': n, 'bend': bend, 'e0': e0, 'e1': e1,
             'dtfac': draw(st.sampled_from([0.1, 0.15, 0.25])), 'integ': draw(st.sampled_from(['rk', 'rk', 'rungekutta', 'euler'])),
             'opts': draw(st.sampled_from(['default', 'default', 'explicit_none', 'shift', 'empty', 'callable'])),
-            'onecall': draw(st.booleans())}
+            'onecall': draw(st.booleans()), 'prior': draw(st.sampled_from([None, None, 'other_path_settings', 'coord_replaced']))}
 
 
 def _surface(case):
@@ -387,14 +387,40 @@ def oracle_relax(case):
         kw = dict(gradientkwargs={}, integratorfxn=case['integ'])
     elif opts == 'callable':
         kw = dict(gradientfxn=lambda fxn, q: gradE(q), gradientkwargs={}, integratorfxn=case['integ'])
+    prior = case.get('prior')
+    if prior == 'other_path_settings':
+        # another path made earlier in this process with default options, whose own settings dict is then edited: the
+        # judged path (also default options) must not inherit anything from it
+        other = mep.create_path(coord[::-1].copy(), E) if opts in ('default', 'explicit_none') else mep.create_path(coord[::-1].copy(), E, gradientkwargs={})
+        other.gradientkwargs['shift'] = 0.3 * a
+        other.grad_energy()
+    first_coord = coord
+    if prior == 'coord_replaced':
+        # the object first holds other points (whose gradient is read), then gets the judged points through the setter
+        first_coord = coord[::-1] * 0.9 + 0.05 * a
     try:
-        path = mep.create_path(coord.tolist() if n % 2 else coord, E, **kw)
+        path = mep.create_path(first_coord.tolist() if n % 2 else first_coord.copy(), E, **kw)
     except TypeError as e:
         if 'gradientkwargs must be None or a dict' in str(e) and kw.get('gradientkwargs') is None:
             raise Violation('create_path(coord, energyfxn%s) with gradientkwargs left at its documented default None raised '
                             'TypeError(%s)' % ('' if opts == 'default' else ', ...', e), K_GK)
         raise
     labs = {'opts_' + opts, case['integ'], 'n%s' % ('<=12' if n <= 12 else '>12')}
+    if prior:
+        labs.add('prior_' + prior)
+    # the gradient of the path's own points follows the points: read it, replace / edit the coordinates, read it again
+    if prior == 'coord_replaced':
+        path.grad_energy(); path.force; path.energy()
+        path.coord = coord.copy()
+    if True:
+        g_obj = np.asarray(path.grad_energy(), dtype=float)
+        g_ref = gradE(np.asarray(path.coord, dtype=float))
+        shift_used = 1e-6 * a if opts == 'shift' else 1e-5
+        # truncation shift^2/6 |E'''| (|E'''| <~ 3 lam/a on this family) + rounding eps |E|/shift (<~ 2.3e-10 lam a), both far below 1e-7 lam a
+        gtol = (0.0 if opts == 'callable' else 50 * shift_used ** 2 * lam / a) + 1e-7 * (np.abs(g_ref).max() + lam * a)
+        require(g_obj.shape == g_ref.shape and np.abs(g_obj - g_ref).max() <= gtol,
+                lambda: 'path.grad_energy() differs from the analytic gradient at the path points by %.3g (tol %.3g)%s'
+                % (np.abs(g_obj - g_ref).max(), gtol, ' after the coordinates were replaced' if prior == 'coord_replaced' else ''))
     # one plain step: end images move downhill, path keeps its image count
     p1s = path.step(timestep=dt)
     require(np.asarray(p1s.coord).shape == (n, 2), lambda: 'step() changed the path shape to %r' % (np.asarray(p1s.coord).shape,))
@@ -456,6 +482,6 @@ CLAUSES = [
            desc='one-step error against expm(hA) y is the first omitted Taylor term (rigorous bracket) and falls by 2^(p+1) on halving h'),
     Clause('gradient', oracle_gradient, gradient_cases, quick=8000, thorough=200000, min_share={'nt': 0.2, 'ratio_checked': 0.03},
            desc='central_difference against the analytic gradient within shift^2/6 max|f\'\'\'| + rounding; ratio 4 on halving the shift; shapes'),
-    Clause('relax', oracle_relax, relax_cases, quick=160, thorough=4000, nshards=16, min_share={'nt': 0.3}, max_share={'not_converged_skipped': 0.15},
+    Clause('relax', oracle_relax, relax_cases, quick=160, thorough=4000, nshards=16, min_share={'nt': 0.3, 'prior_other_path_settings': 0.1, 'prior_coord_replaced': 0.1}, max_share={'not_converged_skipped': 0.15},
            desc='string relaxation on the two-minimum family: ends reach the minima, one interior maximum, climbing image reaches the saddle, gradient vanishes, energy = barrier'),
 ]
